@@ -16,6 +16,8 @@ def _target(name):
 
 def f(s):
     x = 0  # TP:f_first
+    x += 0  # TP:f_second
+    x += 0  # TP:f_third
     for op in s:
         if op[0] == 'call':
             x += _target(op[1])(op[2])  # TP:f_call
